@@ -95,6 +95,8 @@ impl<A: Afi> WriteXml for Differences<'_, A> {
             let elem = writer.create_element("term");
             match (self.old, self.new.is_empty()) {
                 (Some(old), true) if !old.is_empty() => elem.with_attribute(("delete", "delete")),
+                // nothing to install and no installed term to remove
+                (_, true) => return Ok(()),
                 _ => elem,
             }
         };
